@@ -46,7 +46,7 @@ Definition c20_pkg_vars : list pkgvar := [
 (* import paths of the library packages (non-test files) *)
 Definition c20_imports : list (string * list string) := [
   ("bits", ["encoding/binary"; "errors"; "fmt"; "io"]);
-  ("avc", ["bytes"; "encoding/binary"; "errors"; "fmt"; "github.com/Eyevinn/mp4ff/bits"; "github.com/Eyevinn/mp4ff/sei"; "io"; "math"; "math/bits"; "unsafe"]);
+  ("avc", ["bytes"; "encoding/binary"; "errors"; "fmt"; "github.com/Eyevinn/mp4ff/bits"; "github.com/Eyevinn/mp4ff/sei"; "io"; "math/bits"; "unsafe"]);
   ("hevc", ["bytes"; "encoding/binary"; "errors"; "fmt"; "github.com/Eyevinn/mp4ff/avc"; "github.com/Eyevinn/mp4ff/bits"; "github.com/Eyevinn/mp4ff/sei"; "io"; "math/bits"]);
   ("sei", ["bytes"; "encoding/binary"; "encoding/hex"; "encoding/json"; "errors"; "fmt"; "github.com/Eyevinn/mp4ff/bits"; "io"]);
   ("aac", ["bytes"; "fmt"; "github.com/Eyevinn/mp4ff/bits"; "io"]);
